@@ -454,6 +454,8 @@ func descExec(c core.Case) core.Case {
 		execPair(c, out)
 	case "pairschema":
 		execPairSchema(c, out)
+	case "pairgen":
+		execPairGen(c, out)
 	default:
 		harnessBug("unknown desc op %q", op)
 	}
